@@ -312,9 +312,9 @@ func main() {
 	} else {
 		os.MkdirAll(dir, 0o755)
 	}
-	timeout := 15
+	timeout := 40
 	if *tier == "thorough" {
-		timeout = 60
+		timeout = 120
 	}
 	opts := solveOpts{timeoutS: timeout, all: *tier == "thorough", dir: dir, keep: *keep != ""}
 
